@@ -13,7 +13,7 @@
     over parallel child processes; a crash costs one restart, a hang the 20 s watchdog of one shard.
 (c) stack meter (harness bin `c01`): bytes of native stack used by parse / code generation / AST drop /
     render at the limits, debug and release (evidence: how far the accepted nesting is from 2 MiB)."""
-import os, sys, collections, glob, re, concurrent.futures
+import os, sys, collections, glob, re, concurrent.futures, threading
 sys.path.insert(0, os.path.dirname(os.path.dirname(os.path.abspath(__file__))))
 from vlib import *
 import parser_graph
@@ -622,10 +622,36 @@ def mutated_fixtures(repo, rng, n):
 # parallel runner (vlib.run_json is sequential): contiguous chunks, one child process per chunk (restarted
 # after the request it died on), results in request order
 # ---------------------------------------------------------------------------------------------
-def _run_chunk(cmd, reqs, env):
+def answered(r):
+    """the request came back with a value or an error value"""
+    if not isinstance(r, dict):
+        return False
+    rr = r.get("render", r.get("fuel_levels", r))
+    return isinstance(rr, dict) and ("ok" in rr or "err" in rr) or "parse" in r or "parse_ok" in r
+
+
+class Budget:
+    """stops a pass early: after `max_bad` requests that did not come back with a value (each costs a process restart, a
+    hang a whole watchdog period) or after `seconds`; what was not run is reported as skipped, never as passed"""
+
+    def __init__(self, seconds=None, max_bad=None):
+        self.seconds, self.max_bad, self.bad, self.t0, self.lock = seconds, max_bad, 0, time.time(), threading.Lock()
+
+    def note(self, results):
+        with self.lock:
+            self.bad += sum(1 for r in results if not answered(r))
+
+    def spent(self):
+        return (self.max_bad is not None and self.bad >= self.max_bad) or (self.seconds is not None and time.time() - self.t0 >= self.seconds)
+
+
+def _run_chunk(cmd, reqs, env, budget=None):
     results = []
     i, n = 0, len(reqs)
     while i < n:
+        if budget is not None and budget.spent():
+            results.extend([None] * (n - i))  # skipped
+            break
         inp = "\n".join(json.dumps(r) for r in reqs[i:]) + "\n"
         rc, o, e = sh(cmd, inp=inp, timeout=1800, env=env)
         got = []
@@ -634,24 +660,25 @@ def _run_chunk(cmd, reqs, env):
                 got.append(json.loads(l))
             except Exception:
                 got.append({"garbled": l[:200]})
-        results.extend(got)
         i += len(got)
-        if got and isinstance(got[-1], dict) and got[-1].get("hang"):
-            continue
-        if i < n:
+        if not (got and isinstance(got[-1], dict) and got[-1].get("hang")) and i < n:
             e = e or ""
-            results.append({"crash": rc, "stderr": e[:300] + (" ... " + e[-300:] if len(e) > 300 else "")})
+            got.append({"crash": rc, "stderr": e[:300] + (" ... " + e[-300:] if len(e) > 300 else "")})
             i += 1
+        results.extend(got)
+        if budget is not None:
+            budget.note(got)
     return results
 
 
-def run_parallel(binname, reqs, rel, workers, chunk, memlimit=True, vlimit_kb=8000000, watchdog_ms=None):
+def run_parallel(binname, reqs, rel, workers, chunk, memlimit=True, vlimit_kb=8000000, watchdog_ms=None, budget=None):
+    """results in request order; None = not run because the budget of the pass was spent"""
     env = dict(ENV)
     env["MJVERIF_WATCHDOG_MS"] = str(watchdog_ms or WATCHDOG_MS)
     cmd = ["bash", "-c", ("ulimit -v %d; " % vlimit_kb if memlimit else "") + "exec " + bin_path(binname, rel)]
     chunks = [reqs[i:i + chunk] for i in range(0, len(reqs), chunk)]
     with concurrent.futures.ThreadPoolExecutor(max_workers=workers) as ex:
-        parts = list(ex.map(lambda c: _run_chunk(cmd, c, env), chunks))
+        parts = list(ex.map(lambda c: _run_chunk(cmd, c, env, budget), chunks))
     return [r for p in parts for r in p]
 
 
@@ -848,30 +875,61 @@ def main():
         return r
 
     t_run = time.time()
-    for binname, gs, mk, vlimit, wd in (("prog", groups, prog_req, 8000000, WATCHDOG_MS), ("prog", lowmem_groups, prog_req, 2000000, 5000), ("c01", line_groups, c01_req, 8000000, WATCHDOG_MS)):
-      flat = entries(gs)
-      # heavy requests (long templates) first so that the shards finish together
-      order = sorted(range(len(flat)), key=lambda i: -(len(flat[i][1]) + sum(len(x) for x in flat[i][2].get("templates", {}).values())))
-      reqs = [mk(i, flat[i][1], flat[i][2]) for i in order]
-      for rel in (False, True):
-        if not reqs:
-            continue
-        res = run_parallel(binname, reqs, rel, workers=14, chunk=64, vlimit_kb=vlimit, watchdog_ms=wd)
-        total += len(res)
-        # a request that did not answer within the watchdog while 14 shards (and whatever else) load the machine
-        # gets a second chance alone with a 3 times longer watchdog before it counts as a hang (at most 2 per profile)
-        slow = [k for k, r in enumerate(res) if isinstance(r, dict) and r.get("hang")][:2]
-        if slow:
-            env2 = dict(ENV)
-            env2["MJVERIF_WATCHDOG_MS"] = str(3 * wd)
-            cmd2 = ["bash", "-c", "ulimit -v 8000000; exec " + bin_path(binname, rel)]
-            for k in slow:
-                r2 = _run_chunk(cmd2, [reqs[k]], env2)
-                if r2 and not (isinstance(r2[0], dict) and r2[0].get("hang")):
-                    res[k] = r2[0]
-                    hist["answered_after_watchdog"] += 1
+    quick = not chk.thorough and not chk.replay
+    if quick:
+        # the strict families in the quick tier: a seeded slice (another seed, another slice); thorough runs all of them
+        lowmem_groups = [(g, [e for k, e in enumerate(es) if k % 6 == chk.seed % 6]) for g, es in lowmem_groups]
+    # pass: name, bin, groups, request maker, address-space limit (KiB), watchdog (ms), workers, chunk, budget per profile.
+    # Budgets (quick tier only) keep the run short on a tree that has a crash class: each request that does not come back costs a
+    # process restart, a hang a whole watchdog period; what a spent budget leaves out is counted as skipped.
+    passes = [("main", "prog", groups, prog_req, 8000000, WATCHDOG_MS, 12 if quick else 14, 64, (lambda: Budget(max_bad=16)) if quick else (lambda: None)),
+              ("line", "c01", line_groups, c01_req, 8000000, WATCHDOG_MS, 12 if quick else 14, 64, (lambda: Budget(max_bad=16)) if quick else (lambda: None))]
+    done = []  # (binname, flat, order, reqs, rel, res, watchdog)
+
+    def run_pass(ps):
+        name, binname, gs, mk, vlimit, wd, workers, chunk, mkbudget = ps
+        flat = entries(gs)
+        # heavy requests (long templates) first so that the shards finish together
+        order = sorted(range(len(flat)), key=lambda i: -(len(flat[i][1]) + sum(len(x) for x in flat[i][2].get("templates", {}).values())))
+        reqs = [mk(i, flat[i][1], flat[i][2]) for i in order]
+        for rel in (False, True):
+            if reqs:
+                res = run_parallel(binname, reqs, rel, workers=workers, chunk=chunk, vlimit_kb=vlimit, watchdog_ms=wd, budget=mkbudget())
+                done.append((binname, flat, order, reqs, rel, res, wd))
+
+    # the strict families run beside the others, one pass and one budget per family (a crash class in one of them must not
+    # use up the budget of the other)
+    strict = [("strict:" + g, "prog", [(g, es)], prog_req, 2000000, 2000 if quick else 5000, 4 if quick else 14, 4 if quick else 64,
+               (lambda: Budget(seconds=10, max_bad=25)) if quick else (lambda: None)) for g, es in lowmem_groups]
+    th = threading.Thread(target=lambda: [run_pass(ps) for ps in strict])
+    th.start()
+    run_pass(passes[0])
+    run_pass(passes[1])
+    th.join()
+    # a request that did not answer within the watchdog while the shards (and whatever else) load the machine gets a second
+    # chance with twice the watchdog before it counts as a hang: at most 2 per pass and profile, all of them at once, now that
+    # the machine is idle
+    retry = [(d, k) for d in done for k in [k for k, r in enumerate(d[5]) if isinstance(r, dict) and r.get("hang")][:2]]
+
+    def second_chance(dk):
+        d, k = dk
+        env2 = dict(ENV)
+        env2["MJVERIF_WATCHDOG_MS"] = str(2 * d[6])
+        r2 = _run_chunk(["bash", "-c", "ulimit -v 8000000; exec " + bin_path(d[0], d[4])], [d[3][k]], env2)
+        if r2 and not (isinstance(r2[0], dict) and r2[0].get("hang")):
+            d[5][k] = r2[0]
+            hist["answered_after_watchdog"] += 1
+
+    if retry:
+        with concurrent.futures.ThreadPoolExecutor(max_workers=len(retry)) as ex:
+            list(ex.map(second_chance, retry))
+    for binname, flat, order, reqs, rel, res, wd in done:
+        total += sum(1 for r in res if r is not None)
         for i, r in zip(order, res):
             gname, t, extra = flat[i]
+            if r is None:
+                hist[gname + "_skipped_budget_spent"] += 1
+                continue
             rr = r.get("render", r.get("fuel_levels", r)) if isinstance(r, dict) else {}
             if not isinstance(rr, dict):
                 rr = {}
@@ -928,8 +986,8 @@ def main():
     remaining.sort(key=lambda c: (len(c[1]), c[1], c[2]))  # the shortest crashing templates make the best replays
     for gname, t, prof, kind, detail in remaining:
         key = (gname, kind, t[:40])
-        if key in seen or len(seen) >= 8:
-            continue
+        if key in seen or len(seen) >= 14 or sum(1 for k in seen if k[0] == gname) >= 3:
+            continue  # a few (shortest) replays per generator so that one family does not crowd out another defect
         seen.add(key)
         rp = {"template": t, "template_len": len(t), "profile": prof, "observed": detail, "generator": gname}
         if (t, gname) in crash_extra:
